@@ -1,8 +1,8 @@
-\* DiffTouch, the code as it is: every edit script of <= MaxOps ops x block placement x layout x M kind
+\* DiffTouch: every edit script of <= MaxOps ops x block placement x layout x M kind
 CONSTANTS
-  GenLen = 0
+  GenLen = 12
   MaxOps = 5
-  MaxBlocks = 1
+  MaxBlocks = 2
   Layouts = {"line", "inline", "cont", "mltag", "mb"}
   FixU1 = TRUE
   FixF1 = TRUE
